@@ -11,7 +11,7 @@ import torch
 import torchtt
 from .. import ref, space, values
 from ..core import Outcome
-from ..lib import build, call, check_tt, V, exc_name, TT
+from ..lib import build, call, check_tt, V, exc_name, TT, snapshot, snapshot_diff
 
 PROPERTY = 'C03'
 CHUNK = 128
@@ -209,7 +209,12 @@ def _binary(c):
     key = 'bin%s|%s|%s|%s' % (c['g'], op, space.skey(sa), space.skey(sb))
     nt = space.nontrivial(sa) or space.nontrivial(sb)
     site = {'+': 'add', '-': 'sub', '*': 'mul'}[op] + {'A': '.tt_tt', 'B': '.broadcast', 'C': '.first_expands'}[c['g']]
+    snaps = (snapshot(a), snapshot(b))
     res, e = call(_lib_op, op, a, b)
+    for o, sn, nm in ((a, snaps[0], 'first'), (b, snaps[1], 'second')):
+        dmsg = snapshot_diff(o, sn)
+        if dmsg:
+            return Outcome(key, nt, 'operand changed', violations=[V(site + '.%s_operand_changed' % nm, dmsg)])
     if c['g'] == 'C':
         if e is not None:
             return Outcome(key, nt, 'raises:' + exc_name(e))
@@ -259,7 +264,11 @@ def _scalar_case(c):
           's-x': lambda: s - x, 's*x': lambda: s * x, 'x/s': lambda: x / s}[form]
     want = {'x+s': lambda: dx + sv, 'x-s': lambda: dx - sv, 'x*s': lambda: dx * sv, 's+x': lambda: sv + dx,
             's-x': lambda: sv - dx, 's*x': lambda: sv * dx, 'x/s': lambda: dx / sv}[form]()
+    snap = snapshot(x)
     res, e = call(fn)
+    dmsg = snapshot_diff(x, snap)
+    if dmsg:
+        return Outcome(key, nt, 'operand changed', violations=[V(site + '.operand_changed', dmsg)])
     if e is not None:
         if left_foreign:
             return Outcome(key, nt, 'foreign-left raises:' + exc_name(e))
@@ -412,6 +421,6 @@ def cases(tier, seed):
 
 
 def run_case(c):
-    if c.get('g') == 'E2':
+    if c.get('g') in ('E2', 'E2R'):
         return _ht.run_case(PROPERTY, c)
     return _run_case_e1(c)
